@@ -30,7 +30,8 @@ RULE = ('case = (pool seed, OUT kind, selector per section). The pool seed expan
         ' A quarter of the pools are "twin" pools: source a.p8 holds exactly the data OUT already has and its code (like m.lua\'s) is OUT\'s code with another quote style, so a build changes nothing but the spelling of the Lua section - which must still become the source\'s. d.p8.png and an existing .p8.png OUT are PNGs as image tools re-save them (interlaced, filtered, split IDAT, ancillary chunks).'
         ' Error cases include --X "" (empty string) and --X naming a directory; a third of the single and drawn configurations run after an earlier build in the same process from same-named source files with other contents - one that is rejected, or one that succeeds into another output - after which the sources are replaced on disk; b.p8 may lack its final line ends.'
         " The quick tier also builds every section from one and the same cart (a.p8 / b.p8 / c.p8.png / d.p8.png) for all OUT kinds; c.p8.png's code mentions _update60 and does not compress."
-        " a.p8's code uses `#include m.lua` (its Lua section is the spliced code); a third of the builds put the OUT argument last.")
+        " a.p8's code uses `#include m.lua` (its Lua section is the spliced code); a third of the builds put the OUT argument last."
+        ' A third of the pools have a module-style m.lua whose chunk ends in a root-level `return m`.')
 ASSUMPTIONS = ['"section" = the cart memory region (gfx 0x0000-0x1fff incl. the shared half, map 0x2000-0x2fff, gff, '
                'music, sfx) resp. the Lua code text; the version number of OUT is not constrained',
                'empty defaults are taken from the documented empty cart (gfx/map/gff zero, music 41 42 43 44 per '
@@ -156,6 +157,11 @@ def make_pool(seed):
         'm.lua': b'-- main %d\nsrc_m=%d\nfunction _update()\n src_m+=1\nend\n' % (r[6], 1 + r[7]),
         'prev': b'prev_out=%d\nprint("o")\n' % (1 + r[8]),
     }
+    if len(seed) >= 3 and seed[-3] % 3 == 1:
+        # m.lua written the way Lua modules are: its chunk ends in a root-level `return` (the file's code is the
+        # file's code; a.p8 then includes it last, where a return may stand)
+        codes['m.lua'] = b'-- module %d\nlocal m={v=%d}\nfunction m.f()\n return m.v\nend\nreturn m -- the module\n' % (r[6], 1 + r[7])
+        codes['a.p8'] = b'src_a=%d\nprint("a")\n#include m.lua\n' % (1 + r[0])
     # "twin" pools: source a.p8 holds exactly the data OUT already has and its code (like m.lua's) is OUT's code
     # spelled differently (quote style), so a build from them changes nothing but the spelling of the Lua section
     twin = seed[0] % 4 == 0
